@@ -34,10 +34,9 @@ def h_drainage(ctx, cfg):
     ctx.out("thnew", thnew); ctx.out("DeepPerc", dp); ctx.out("FluxOut", flux)
     ctx.prove("C01:drainage balance S'+DeepPerc=S", approx(after + dp, before, 1e-9))
     ctx.prove("C04:DeepPerc>=0", dp >= -1e-12)
-    for i in range(n):
-        ctx.prove(f"C03:th[{i}]<=th_s after drainage", thnew[i] <= float(base.th_s[i]) + 1e-12)
-        ctx.prove(f"C03:th[{i}]>=th_dry after drainage", thnew[i] >= float(base.th_dry[i]) - 1e-12)
-        ctx.prove(f"contract:0<=FluxOut[{i}]<=Ksat", And(flux[i] >= -1e-9, flux[i] <= float(base.Ksat[i]) + 1e-9))
+    ctx.prove("C03:th<=th_s after drainage", And(*[thnew[i] <= float(base.th_s[i]) + 1e-12 for i in range(n)]))
+    ctx.prove("C03:th>=th_dry after drainage", And(*[thnew[i] >= float(base.th_dry[i]) - 1e-12 for i in range(n)]))
+    ctx.prove("contract:0<=FluxOut<=Ksat", And(*[And(flux[i] >= -1e-9, flux[i] <= float(base.Ksat[i]) + 1e-9) for i in range(n)]))
     ctx.prove("C12:drainage leaves its input th untouched", And(*[a == b for a, b in zip(list(th), th0)]))
     prove_prof_unchanged(ctx, prof, snap, "C12:drainage")
     # coverage goals
